@@ -42,7 +42,7 @@ def gen_baggage(repo):
     out.append(f'def baggageEscape : UInt8 := {ord(m.group(1))}\n')
     dec = X._one(r'static\s+std::string\s+UrlDecode\s*\(.*?\n  \}', txt, 'UrlDecode').group(0)
     if not re.search(r'(\w+)\s*\+\s*2\s*>=\s*(\w+)\.size\(\)\s*\|\|\s*!\w+\(\2\[\1\s*\+\s*1\]\)\s*\|\|\s*!\w+\(\2\[\1\s*\+\s*2\]\)', dec):
-        raise X.ExtractError('UrlDecode: the guard `i + 2 >= str.size() || !IsHex(str[i + 1]) || !IsHex(str[i + 2])` is gone')
+        raise X.ShapeChanged('UrlDecode: the guard `i + 2 >= str.size() || !IsHex(str[i + 1]) || !IsHex(str[i + 2])` is gone')
     m = X._one(r'std::isalnum\((\w+\[\w+\])\)((?:\s*\|\|\s*\w+\[\w+\]\s*==\s*\'.\')+)\s*\)', dec, 'UrlDecode unreserved set')
     keepd = [ord(c) for c in re.findall(r"'(.)'", m.group(2))]
     out.append(f'/-- the non-alphanumeric characters `UrlDecode` copies -/\ndef baggageKeepDecode : List UInt8 := {X.lean_bytes(keepd)}\n')
